@@ -17,11 +17,25 @@ Proof.
   cbn [all_from] in H. apply andb_prop in H as [H1 H2].
   destruct (Z.eq_dec j k) as [->|Hne]; [exact H1|]. apply (IH (k + 1) H2). lia.
 Qed.
-(* closed finite sweep over the 146 097 days of one 400-year era (the only use of vm_compute here) *)
-Lemma doe_sweep : all_from (fun k => ymd_ltb (ymd_of_doe k) (ymd_of_doe (k + 1))) 0 (Z.to_nat 146096) = true.
+(* closed finite sweep over the 146 097 days of one 400-year era (the only use of vm_compute here):
+   consecutive days have increasing dates, and months / days of month are in range *)
+Definition ymd_rangeb (a : ymd) : bool :=
+  let '(y, m, d) := a in (0 <=? y) && (y <=? 400) && (1 <=? m) && (m <=? 12) && (1 <=? d) && (d <=? 31).
+Definition doe_ok (k : Z) : bool :=
+  let a := ymd_of_doe k in let b := ymd_of_doe (k + 1) in ymd_ltb a b && ymd_rangeb a.
+Lemma doe_sweep : all_from doe_ok 0 (Z.to_nat 146096) = true.
 Proof. vm_cast_no_check (eq_refl true). Qed.
 Lemma doe_step k : 0 <= k < 146096 -> ymd_lt (ymd_of_doe k) (ymd_of_doe (k + 1)).
-Proof. intros H. apply (all_from_spec _ _ _ doe_sweep). lia. Qed.
+Proof.
+  intros H. pose proof (all_from_spec _ _ _ doe_sweep k ltac:(lia)) as E. unfold doe_ok in E. cbv zeta in E.
+  apply andb_prop in E. exact (proj1 E).
+Qed.
+Lemma doe_range k : 0 <= k < 146097 -> ymd_rangeb (ymd_of_doe k) = true.
+Proof.
+  intros H. destruct (Z.eq_dec k 146096) as [->|Hne]; [reflexivity|].
+  pose proof (all_from_spec _ _ _ doe_sweep k ltac:(lia)) as E. unfold doe_ok in E. cbv zeta in E.
+  apply andb_prop in E. exact (proj2 E).
+Qed.
 Lemma ymd_ltb_trans a b c : ymd_ltb a b = true -> ymd_ltb b c = true -> ymd_ltb a c = true.
 Proof. destruct a as [[y1 m1] d1], b as [[y2 m2] d2], c as [[y3 m3] d3]. unfold ymd_ltb. lia. Qed.
 Lemma ymd_ltb_irrefl a : ymd_ltb a a = false.
@@ -79,7 +93,8 @@ Notation day_of := (day_of c).
 
 Definition lt_key (a b : rfile) : Prop := fday a < fday b \/ (fday a = fday b /\ fidx a < fidx b).
 (* a file the sink itself named: the date in the name is the civil date of its ghost day number *)
-Definition WfFile (f : rfile) : Prop := fymd f = civil (fday f) /\ -1 <= fday f /\ fseeded f = false.
+Definition WfFile (f : rfile) : Prop :=
+  fymd f = civil (fday f) /\ -1 <= fday f /\ fseeded f = false /\ fdig f = dec (fidx f) /\ 1 <= fidx f.
 
 Lemma ymd_eqb_refl a : ymd_eqb a a = true.
 Proof. apply ymd_eqb_eq. reflexivity. Qed.
@@ -179,6 +194,12 @@ Proof.
   - specialize (IH Hin Hd). destruct (ymd_eqb (fymd g) d); lia.
 Qed.
 
+Lemma next_idx_pos d rs : 1 <= next_idx d rs.
+Proof.
+  unfold next_idx. assert (0 <= fold_right (fun f m => if ymd_eqb (fymd f) d then Z.max (fidx f) m else m) 0 rs); [|lia].
+  induction rs as [|g t IH]; cbn [fold_right]; [lia|]. destruct (ymd_eqb (fymd g) d); lia.
+Qed.
+
 (* ---------- Inv2: clock, dates, keys strictly increasing along gone ++ rot ---------- *)
 Definition all_rot (w : world) : list rfile := gone w ++ rot w.
 Definition KeySorted (w : world) : Prop := StronglySorted lt_key (all_rot w).
@@ -243,7 +264,8 @@ Proof.
   - unfold all_rot in *. apply sorted_app_last; [exact (sorted_app_r _ _ Hs)|].
     apply Forall_app in Hlt. tauto.
   - apply Forall_app; split; [unfold all_rot in Hwf; apply Forall_app in Hwf; tauto|].
-    constructor; [|constructor]. unfold WfFile; cbn. repeat split; lia.
+    constructor; [|constructor]. unfold WfFile; try (unfold f); unfold new_file; cbn [fymd fday fseeded fdig fidx].
+    repeat split; try reflexivity; try lia; apply next_idx_pos.
 Qed.
 
 Lemma rotateS_inv2 w : inited w = true -> Inv2 w -> Inv2 (rotateS w).
@@ -266,7 +288,8 @@ Proof.
     rewrite Hall. apply Forall_app; split.
     + rewrite Forall_forall in *. intros g Hin. specialize (Hcf g Hin). lia.
     + constructor; [cbn; lia|constructor].
-  - rewrite Hall. apply Forall_app; split; [exact Hwf|]. constructor; [|constructor]. unfold WfFile; cbn. repeat split; lia.
+  - rewrite Hall. apply Forall_app; split; [exact Hwf|]. constructor; [|constructor]. unfold WfFile; try (unfold f); unfold new_file; cbn [fymd fday fseeded fdig fidx].
+    repeat split; try reflexivity; try lia; apply next_idx_pos.
   - unfold KeySorted. rewrite Hall. apply sorted_app_last; assumption.
   - intros HN _. unfold remove_oldS in E. destruct (Z.leb_spec (cN c) 0); [lia|].
     apply drop_oldest_length in E. intro E0. rewrite E0 in E. rewrite app_length in E. cbn [length] in E. lia.
@@ -821,7 +844,7 @@ Proof. intros H d' ->. apply forallb_forall. intros r Hr. unfold one_day in H. r
 
 Theorem oracle_c09 t0 ops : clean ops -> prop_c09_b sh c (snap_of (run t0 ops)) = true.
 Proof.
-  intros H. pose proof (run_inv2 t0 ops H) as I. unfold prop_c09_b. cbn [snap_of s_gone s_rot s_act]. cbv zeta.
+  intros H. pose proof (run_inv2 t0 ops H) as I. unfold prop_c09_b. cbn [snap_of s_gone s_rot s_act s_act_lost negb]. cbv zeta.
   rewrite (isort_rot _ I). fold (all_rot (run t0 ops)).
   destruct (ps_holds t0 ops H) as (_ & _ & HNe). destruct (hist_ok t0 ops H) as [_ Hids].
   pose proof (history_conserved t0 ops H) as HC. unfold Conserved in HC. rewrite all_recs_alt in HC. rewrite HC in Hids.
@@ -843,7 +866,7 @@ End WithCfg.
 (* ---------- the theorems, for any shape the translator may produce that equals the proven one ---------- *)
 Lemma shape_eqb_eq a : shape_eqb a std_shape = true -> a = std_shape.
 Proof.
-  destruct a as [v k ss sn nl od lk im nc an es go ap]. unfold shape_eqb. cbn. intros H.
+  destruct a as [v k ss sn nl od lk im nc an es go ap lh op1]. unfold shape_eqb. cbn. intros H.
   repeat (let X := fresh "X" in apply andb_prop in H as [H X]).
   destruct v; [|discriminate].
   repeat match goal with
@@ -940,3 +963,356 @@ Theorem T_foreign_inert sh c w n b : parse_name c n = None ->
 Proof.
   intros E. cbn [step]. unfold put_foreign. rewrite E. destruct (str_eqb n (active_name c)); cbn; tauto.
 Qed.
+
+Definition digits (l : str) : Prop := Forall (fun ch => is_digit ch = true) l.
+(* value of little-endian digits *)
+Fixpoint val_le (l : str) : Z := match l with [] => 0 | ch :: t => (Z.of_N ch - 48) + 10 * val_le t end.
+Lemma digits_val_snoc l ch : digits_val (l ++ [ch]) = digits_val l * 10 + (Z.of_N ch - 48).
+Proof. unfold digits_val. rewrite fold_left_app. reflexivity. Qed.
+Lemma digits_val_rev l : digits_val (rev l) = val_le l.
+Proof. induction l as [|ch t IH]; [reflexivity|]. cbn [rev val_le]. rewrite digits_val_snoc, IH. lia. Qed.
+Lemma is_digit_code n : 0 <= n <= 9 -> is_digit (Z.to_N (48 + n)) = true /\ Z.of_N (Z.to_N (48 + n)) - 48 = n.
+Proof. intros H. unfold is_digit. split; [|lia]. apply andb_true_iff; split; apply N.leb_le; lia. Qed.
+Lemma dec_rev_spec fuel : forall n, 0 <= n < 2 ^ Z.of_nat fuel -> (0 < fuel)%nat ->
+  digits (dec_rev fuel n) /\ val_le (dec_rev fuel n) = n /\ dec_rev fuel n <> [].
+Proof.
+  induction fuel as [|f IH]; intros n Hn Hf; [lia|]. cbn [dec_rev].
+  destruct (Z.ltb_spec n 10) as [Hlt|Hge].
+  - destruct (is_digit_code n ltac:(lia)) as [D V]. split; [constructor; [exact D|constructor]|split; [cbn [val_le]; lia|discriminate]].
+  - assert (Hf' : (0 < f)%nat).
+    { destruct f; [|lia]. cbn in Hn. lia. }
+    assert (Hn' : 0 <= n / 10 < 2 ^ Z.of_nat f).
+    { rewrite Nat2Z.inj_succ, Z.pow_succ_r in Hn by lia. lia. }
+    destruct (IH (n / 10) Hn' Hf') as (D & V & _).
+    destruct (is_digit_code (n mod 10) ltac:(lia)) as [D0 V0].
+    split; [constructor; assumption|split; [cbn [val_le]; rewrite V, V0; lia|discriminate]].
+Qed.
+Lemma dec_spec n : 0 <= n -> digits (dec n) /\ digits_val (dec n) = n /\ dec n <> [].
+Proof.
+  intros H. unfold dec. rewrite Z.max_r by lia.
+  assert (Hb : 0 <= n < 2 ^ Z.of_nat (S (Z.to_nat (Z.log2 n)))).
+  { split; [exact H|]. rewrite Nat2Z.inj_succ, Z2Nat.id by apply Z.log2_nonneg.
+    destruct (Z.eq_dec n 0) as [->|Hne]; [cbn; lia|]. apply Z.log2_spec. lia. }
+  destruct (dec_rev_spec _ n Hb ltac:(lia)) as (D & V & NE).
+  split; [unfold digits in *; apply Forall_rev; exact D|split; [rewrite digits_val_rev; exact V|]].
+  intro E. apply NE. rewrite <- (rev_involutive (dec_rev _ n)), E. reflexivity.
+Qed.
+Lemma dec_inj a b : 0 <= a -> 0 <= b -> dec a = dec b -> a = b.
+Proof. intros Ha Hb E. rewrite <- (proj1 (proj2 (dec_spec a Ha))), <- (proj1 (proj2 (dec_spec b Hb))), E. reflexivity. Qed.
+(* no leading zero, except for "0" itself *)
+Lemma dec_rev_last fuel : forall n, 0 < n < 2 ^ Z.of_nat fuel -> last (dec_rev fuel n) 48%N <> 48%N.
+Proof.
+  induction fuel as [|f IH]; intros n Hn; [cbn in Hn; lia|]. cbn [dec_rev].
+  destruct (Z.ltb_spec n 10) as [Hlt|Hge]; [cbn [last]; lia|].
+  assert (Hn' : 0 < n / 10 < 2 ^ Z.of_nat f) by (rewrite Nat2Z.inj_succ, Z.pow_succ_r in Hn by lia; lia).
+  specialize (IH _ Hn'). destruct (dec_rev f (n / 10)) eqn:E; [|exact IH].
+  destruct f; [cbn in Hn'; lia|]. cbn [dec_rev] in E. destruct (n / 10 <? 10); discriminate.
+Qed.
+Lemma dec_no_leading_zero n : 1 <= n -> hd 48%N (dec n) <> 48%N.
+Proof.
+  intros H. unfold dec. rewrite Z.max_r by lia.
+  assert (Hb : 0 < n < 2 ^ Z.of_nat (S (Z.to_nat (Z.log2 n)))).
+  { split; [lia|]. rewrite Nat2Z.inj_succ, Z2Nat.id by apply Z.log2_nonneg. apply Z.log2_spec. lia. }
+  pose proof (dec_rev_last _ n Hb) as L. set (l := dec_rev _ n) in *.
+  assert (G : forall r : str, hd 48%N r = last (rev r) 48%N).
+  { clear. intros [|a t]; [reflexivity|]. cbn [rev hd]. rewrite last_last. reflexivity. }
+  rewrite (G (rev l)), rev_involutive. exact L.
+Qed.
+(* fixed width *)
+Lemma dec_rev_len fuel : forall n k, 0 <= n < 10 ^ Z.of_nat k -> (0 < k)%nat -> (length (dec_rev fuel n) <= k)%nat.
+Proof.
+  induction fuel as [|f IH]; intros n k Hn Hk; [cbn; lia|]. cbn [dec_rev].
+  destruct (Z.ltb_spec n 10) as [Hlt|Hge]; [cbn; lia|].
+  destruct k as [|k]; [lia|]. destruct k as [|k]; [cbn in Hn; lia|].
+  cbn [length]. apply le_n_S. apply IH; [|lia].
+  rewrite (Nat2Z.inj_succ (S k)), Z.pow_succ_r in Hn by lia. lia.
+Qed.
+Lemma pad_spec k n : 0 <= n < 10 ^ Z.of_nat k -> (0 < k)%nat ->
+  length (pad k (dec n)) = k /\ digits (pad k (dec n)) /\ digits_val (pad k (dec n)) = n.
+Proof.
+  intros Hn Hk. destruct (dec_spec n (proj1 Hn)) as (D & V & _).
+  assert (L : (length (dec n) <= k)%nat).
+  { unfold dec. rewrite Z.max_r, rev_length by lia. apply dec_rev_len; assumption. }
+  unfold pad. split; [rewrite app_length, repeat_length; lia|split].
+  - apply Forall_app; split; [|exact D]. apply Forall_forall. intros x Hx. apply repeat_spec in Hx. subst. reflexivity.
+  - unfold digits_val in *. rewrite fold_left_app.
+    assert (Z0 : forall j, fold_left (fun a ch => a * 10 + (Z.of_N ch - 48)) (repeat 48%N j) 0 = 0).
+    { induction j as [|j IH]; [reflexivity|]. cbn [repeat fold_left]. exact IH. }
+    rewrite Z0. exact V.
+Qed.
+
+(* ---- string primitives ---- *)
+Lemma strip_prefix_app p l : strip_prefix p (p ++ l) = Some l.
+Proof. induction p as [|x t IH]; [reflexivity|]. cbn [app strip_prefix]. rewrite N.eqb_refl. exact IH. Qed.
+Lemma strip_prefix_sound p : forall l r, strip_prefix p l = Some r -> l = p ++ r.
+Proof.
+  induction p as [|x t IH]; intros l r H; [cbn in H; injection H as ->; reflexivity|].
+  destruct l as [|y l']; [discriminate|]. cbn [strip_prefix] in H. destruct (N.eqb_spec x y) as [->|]; [|discriminate].
+  cbn [app]. f_equal. apply IH. exact H.
+Qed.
+Lemma take_digits_app l : forall rest, digits l -> take_digits (length l) (l ++ rest) = Some (l, rest).
+Proof.
+  induction l as [|x t IH]; intros rest D; [reflexivity|]. inversion D as [|? ? Hx Ht]; subst.
+  cbn [length app take_digits]. rewrite Hx, (IH rest Ht). reflexivity.
+Qed.
+Lemma take_digits_sound k : forall l a b, take_digits k l = Some (a, b) -> l = a ++ b /\ length a = k.
+Proof.
+  induction k as [|k IH]; intros l a b H; [cbn in H; injection H as <- <-; split; reflexivity|].
+  destruct l as [|x t]; [discriminate|]. cbn [take_digits] in H. destruct (is_digit x); [|discriminate].
+  destruct (take_digits k t) as [[a' b']|] eqn:E; [|discriminate]. injection H as <- <-.
+  destruct (IH _ _ _ E) as [-> L]. split; [reflexivity|cbn; lia].
+Qed.
+Definition not_digit_head (l : str) : Prop := match l with [] => True | x :: _ => is_digit x = false end.
+Lemma span_digits_app l : forall rest, digits l -> not_digit_head rest -> span_digits (l ++ rest) = (l, rest).
+Proof.
+  induction l as [|x t IH]; intros rest D H.
+  - cbn [app]. destruct rest as [|y r]; [reflexivity|]. cbn in H. cbn [span_digits]. rewrite H. reflexivity.
+  - inversion D as [|? ? Hx Ht]; subst. cbn [app span_digits]. rewrite Hx, (IH rest Ht H). reflexivity.
+Qed.
+Lemma span_digits_sound l : forall a b, span_digits l = (a, b) -> l = a ++ b.
+Proof.
+  induction l as [|x t IH]; intros a b H; [cbn in H; injection H as <- <-; reflexivity|].
+  cbn [span_digits] in H. destruct (is_digit x); [|injection H as <- <-; reflexivity].
+  destruct (span_digits t) as [a' b'] eqn:E. injection H as <- <-. rewrite (IH _ _ eq_refl). reflexivity.
+Qed.
+Lemma str_eqb_eq a : forall b, str_eqb a b = true -> a = b.
+Proof.
+  induction a as [|x t IH]; intros [|y u] H; try discriminate; [reflexivity|].
+  cbn [str_eqb] in H. apply andb_prop in H as [H1 H2]. apply N.eqb_eq in H1. subst. f_equal. apply IH. exact H2.
+Qed.
+Lemma str_eqb_neq a b : a <> b -> str_eqb a b = false.
+Proof. intros H. destruct (str_eqb a b) eqn:E; [|reflexivity]. exfalso. apply H. apply str_eqb_eq. exact E. Qed.
+
+Section Names.
+Variable c : cfg.
+Notation sfx := (sfx c).
+Lemma sfx_head : not_digit_head sfx.
+Proof. unfold RotateDefs.sfx. destruct (csuffix c); [exact Logic.I|reflexivity]. Qed.
+Lemma sfx_tail_head (gz : bool) : not_digit_head (sfx ++ (if gz then GZ else [])).
+Proof.
+  unfold RotateDefs.sfx. destruct (csuffix c); [|reflexivity]. destruct gz; [reflexivity|exact Logic.I].
+Qed.
+
+(* a name the sink can render: 4/2/2-digit date fields, a non-empty run of index digits *)
+Definition name_ok (f : rfile) : Prop :=
+  let '(y, m, d) := fymd f in
+  0 <= y <= 9999 /\ 0 <= m <= 99 /\ 0 <= d <= 99 /\ fdig f <> [] /\ digits (fdig f).
+
+(* (1) the recogniser of findRotatedFiles reads back exactly what generateRotatedFileName wrote *)
+Theorem parse_render f : name_ok f -> parse_name c (render c f) = Some (fymd f, fdig f, fgz f).
+Proof.
+  unfold name_ok. destruct (fymd f) as [[y m] d] eqn:Ey. intros (Hy & Hm & Hd & Hne & Hdg).
+  destruct (pad_spec 4 y ltac:(cbn; lia) ltac:(lia)) as (Ly & Dy & Vy).
+  destruct (pad_spec 2 m ltac:(cbn; lia) ltac:(lia)) as (Lm & Dm & Vm).
+  destruct (pad_spec 2 d ltac:(cbn; lia) ltac:(lia)) as (Ld & Dd & Vd).
+  unfold parse_name, render, ymd_str. rewrite Ey.
+  repeat rewrite <- app_assoc.
+  rewrite strip_prefix_app, strip_prefix_app.
+  rewrite <- Ly at 1. rewrite (take_digits_app _ _ Dy), strip_prefix_app.
+  rewrite <- Lm at 1. rewrite (take_digits_app _ _ Dm), strip_prefix_app.
+  rewrite <- Ld at 1. rewrite (take_digits_app _ _ Dd), strip_prefix_app.
+  rewrite (span_digits_app _ _ Hdg (sfx_tail_head (fgz f))).
+  destruct (fdig f) as [|d0 ds] eqn:Ed; [contradiction|]. rewrite Vy, Vm, Vd.
+  destruct (fgz f).
+  - rewrite (str_eqb_neq (sfx ++ GZ) sfx), str_eqb_refl; [reflexivity|].
+    intro E. apply (f_equal (@length N)) in E. rewrite app_length in E. cbn in E. lia.
+  - rewrite app_nil_r, str_eqb_refl. reflexivity.
+Qed.
+
+(* render is injective on (date, index digits, gz) *)
+Theorem render_inj a b : name_ok a -> name_ok b -> render c a = render c b ->
+  fymd a = fymd b /\ fdig a = fdig b /\ fgz a = fgz b.
+Proof.
+  intros Ha Hb E. pose proof (parse_render a Ha) as Pa. rewrite E, (parse_render b Hb) in Pa.
+  injection Pa as -> -> ->. tauto.
+Qed.
+
+(* what a recognised name looks like *)
+Lemma parse_sound raw ymd ds (gz : bool) : parse_name c raw = Some (ymd, ds, gz) ->
+  exists y m d, raw = cbase c ++ DOT ++ y ++ DASH ++ m ++ DASH ++ d ++ DOT ++ ds ++ sfx ++ (if gz then GZ else [])
+    /\ length y = 4%nat /\ length m = 2%nat /\ length d = 2%nat /\ ds <> [].
+Proof.
+  unfold parse_name. intros H.
+  destruct (strip_prefix (cbase c) raw) as [r1|] eqn:E1; [|discriminate].
+  destruct (strip_prefix DOT r1) as [r2|] eqn:E2; [|discriminate].
+  destruct (take_digits 4 r2) as [[y r3]|] eqn:E3; [|discriminate].
+  destruct (strip_prefix DASH r3) as [r4|] eqn:E4; [|discriminate].
+  destruct (take_digits 2 r4) as [[m r5]|] eqn:E5; [|discriminate].
+  destruct (strip_prefix DASH r5) as [r6|] eqn:E6; [|discriminate].
+  destruct (take_digits 2 r6) as [[d r7]|] eqn:E7; [|discriminate].
+  destruct (strip_prefix DOT r7) as [r8|] eqn:E8; [|discriminate].
+  destruct (span_digits r8) as [ds' r9] eqn:E9.
+  apply strip_prefix_sound in E1, E2, E4, E6, E8. apply take_digits_sound in E3 as [E3 L3], E5 as [E5 L5], E7 as [E7 L7].
+  apply span_digits_sound in E9. exists y, m, d.
+  destruct ds' as [|x t]; [discriminate|].
+  destruct (str_eqb r9 sfx) eqn:Q1.
+  - apply str_eqb_eq in Q1. injection H as <- <- <-. subst. rewrite app_nil_r.
+    repeat rewrite <- app_assoc. repeat split; try assumption; discriminate.
+  - destruct (str_eqb r9 (sfx ++ GZ)) eqn:Q2; [|discriminate]. apply str_eqb_eq in Q2. injection H as <- <- <-. subst.
+    repeat rewrite <- app_assoc. repeat split; try assumption; discriminate.
+Qed.
+(* (3) the active file's own name is never taken for a rotated file, and differs from every rendered name *)
+Theorem parse_rejects_active : parse_name c (active_name c) = None.
+Proof.
+  destruct (parse_name c (active_name c)) as [[[ymd ds] gz]|] eqn:E; [|reflexivity]. exfalso.
+  apply parse_sound in E as (y & m & d & E & Ly & Lm & Ld & Hne). unfold active_name in E.
+  apply (f_equal (@length N)) in E. repeat rewrite app_length in E. cbn in E. lia.
+Qed.
+Theorem render_not_active f : render c f <> active_name c.
+Proof.
+  unfold render, active_name, ymd_str. destruct (fymd f) as [[y m] d]. intro E.
+  apply (f_equal (@length N)) in E. repeat rewrite app_length in E. cbn in E. lia.
+Qed.
+End Names.
+
+(* ---- the names the sink generates ---- *)
+Lemma civil_range a : -1 <= a <= MAXDAY ->
+  let '(y, m, d) := civil a in 1969 <= y <= 9999 /\ 1 <= m <= 12 /\ 1 <= d <= 31.
+Proof.
+  intros H.
+  assert (Hlo : civil (-1) = (1969, 12, 31)) by reflexivity.
+  assert (Hhi : civil MAXDAY = (9999, 12, 31)) by reflexivity.
+  assert (L : ymd_ltb (civil a) (civil (-1)) = false).
+  { destruct (Z.eq_dec a (-1)) as [->|Hne]; [apply ymd_ltb_irrefl|].
+    pose proof (civil_mono (-1) a ltac:(lia) ltac:(lia)) as M. unfold ymd_lt in M.
+    destruct (ymd_ltb (civil a) (civil (-1))) eqn:E; [|reflexivity].
+    pose proof (ymd_ltb_trans _ _ _ M E) as T. rewrite ymd_ltb_irrefl in T. discriminate. }
+  assert (U : ymd_ltb (civil MAXDAY) (civil a) = false).
+  { destruct (Z.eq_dec a MAXDAY) as [->|Hne]; [apply ymd_ltb_irrefl|].
+    pose proof (civil_mono a MAXDAY ltac:(lia) ltac:(lia)) as M. unfold ymd_lt in M.
+    destruct (ymd_ltb (civil MAXDAY) (civil a)) eqn:E; [|reflexivity].
+    pose proof (ymd_ltb_trans _ _ _ M E) as T. rewrite ymd_ltb_irrefl in T. discriminate. }
+  rewrite Hlo in L. rewrite Hhi in U. unfold civil in *.
+  pose proof (doe_range ((a + 719468) mod 146097) ltac:(unfold MAXDAY in H; lia)) as R.
+  destruct (ymd_of_doe ((a + 719468) mod 146097)) as [[y m] d]. unfold ymd_rangeb in R. unfold ymd_ltb in L, U. lia.
+Qed.
+
+Section SinkNames.
+Variable c : cfg.
+Lemma day_of_ub t : t <= TMAX -> day_of c t <= MAXDAY.
+Proof. intros H. unfold day_of, day_at, tz_ms, TMAX, MAXDAY, DAYMS in *. lia. Qed.
+Lemma wf_name_ok f : WfFile f -> fday f <= MAXDAY -> name_ok f.
+Proof.
+  intros (Ey & Hlo & _ & Ed & Hi) Hhi. unfold name_ok. rewrite Ey.
+  pose proof (civil_range (fday f) ltac:(lia)) as R. destruct (civil (fday f)) as [[y m] d].
+  destruct (dec_spec (fidx f) ltac:(lia)) as (D & _ & NE). rewrite Ed. repeat split; try lia; assumption.
+Qed.
+Lemma inv2_days_ub w : Inv2 c w -> Forall (fun f => fday f <= MAXDAY) (all_rot w).
+Proof.
+  intros I. pose proof (c_dates c w I) as Hd. pose proof (c_clock c w I) as Hc. pose proof (c_tmax c w I) as Ht.
+  rewrite Forall_forall in *. intros f Hf. specialize (Hd f Hf).
+  pose proof (day_of_mono c _ _ (proj2 Hc)). pose proof (day_of_ub (now w) Ht). lia.
+Qed.
+Lemma inv2_names_ok w : Inv2 c w -> Forall name_ok (all_rot w).
+Proof.
+  intros I. pose proof (inv2_days_ub w I) as U. pose proof (c_wf c w I) as Hw.
+  rewrite Forall_forall in *. intros f Hf. apply wf_name_ok; [apply Hw|apply U]; exact Hf.
+Qed.
+
+Lemma NoDup_map_transfer {A B C : Type} (f : A -> B) (g : A -> C) l :
+  (forall a b, In a l -> In b l -> g a = g b -> f a = f b) -> NoDup (map f l) -> NoDup (map g l).
+Proof.
+  induction l as [|x t IH]; intros H N; [constructor|]. cbn [map] in *. inversion N as [|? ? Hn Nt]; subst.
+  constructor.
+  - intros Hin. apply in_map_iff in Hin as (y & Ey & Hy). apply Hn. apply in_map_iff. exists y. split; [|exact Hy].
+    apply H; [right; exact Hy|left; reflexivity|exact Ey].
+  - apply IH; [|exact Nt]. intros a b Ha Hb. apply H; right; assumption.
+Qed.
+Lemma nodup_app {A : Type} (a b : list A) : NoDup a -> NoDup b -> (forall x, In x a -> ~ In x b) -> NoDup (a ++ b).
+Proof.
+  induction a as [|x t IH]; intros Na Nb H; [exact Nb|]. inversion Na as [|? ? Hx Nt]; subst. cbn [app]. constructor.
+  - intro Hin. apply in_app_or in Hin as [Hin|Hin]; [contradiction|]. exact (H x (or_introl eq_refl) Hin).
+  - apply IH; [exact Nt|exact Nb|]. intros y Hy. apply H. right; exact Hy.
+Qed.
+
+Lemma nodup_app_r {A : Type} (a b : list A) : NoDup (a ++ b) -> NoDup b.
+Proof. induction a as [|x t IH]; intros H; [exact H|]. cbn [app] in H. inversion H; subst. apply IH. assumption. Qed.
+Lemma nodup_filter_map {A B : Type} (f : A -> B) (p : A -> bool) l : NoDup (map f l) -> NoDup (map f (filter p l)).
+Proof.
+  induction l as [|x t IH]; intros N; [constructor|]. cbn [map] in N. inversion N as [|? ? Hx Nt]; subst.
+  cbn [filter]. destruct (p x); [|apply IH; exact Nt]. cbn [map]. constructor; [|apply IH; exact Nt].
+  intro Hin. apply Hx. apply in_map_iff in Hin as (y & Ey & Hy). apply filter_In in Hy as [Hy _].
+  apply in_map_iff. exists y. tauto.
+Qed.
+
+(* (2) names, not only (date, index) pairs, are never used twice *)
+Lemma inv2_names_nodup w : Inv2 c w -> NoDup (map (render c) (all_rot w)).
+Proof.
+  intros I. pose proof (inv2_names_ok w I) as Hok. pose proof (c_wf c w I) as Hw.
+  apply (NoDup_map_transfer (fun f => (fymd f, fidx f))); [|apply sorted_nodup; [exact (c_sorted c w I)|exact Hw]].
+  rewrite Forall_forall in *. intros a b Ha Hb E.
+  destruct (render_inj c a b (Hok a Ha) (Hok b Hb) E) as (Ey & Ed & _).
+  destruct (Hw a Ha) as (_ & _ & _ & Da & Ia). destruct (Hw b Hb) as (_ & _ & _ & Db & Ib).
+  rewrite Da, Db in Ed. apply dec_inj in Ed; [|lia|lia]. rewrite Ey, Ed. reflexivity.
+Qed.
+
+(* files outside the scheme: names pairwise distinct, rejected by the recogniser, never the active name *)
+Definition ForeignOk (w : world) : Prop :=
+  NoDup (map xname (foreign w)) /\
+  Forall (fun x => parse_name c (xname x) = None /\ xname x <> active_name c) (foreign w).
+Lemma step_foreign_ok w o : clean_op c o -> ForeignOk w -> ForeignOk (step std_shape c w o).
+Proof.
+  intros Hcl H. destruct o as [p|dt| |n b].
+  - unfold ForeignOk. rewrite (sink_ops_leave_foreign c w (Write p)); [exact H|intros n b; discriminate].
+  - exact H.
+  - exact H.
+  - cbn in Hcl. cbn [step]. rewrite (put_foreign_unfold c w n b Hcl).
+    destruct (str_eqb n (active_name c)) eqn:Ea; [exact H|]. destruct H as [N F]. unfold ForeignOk; cbn [foreign].
+    set (keep := filter (fun x => negb (str_eqb (xname x) n)) (foreign w)).
+    assert (Hk : forall x, In x keep -> In x (foreign w) /\ xname x <> n).
+    { intros x Hx. apply filter_In in Hx as [Hx Hb]. split; [exact Hx|]. intros E. rewrite E, str_eqb_refl in Hb. discriminate. }
+    split.
+    + rewrite map_app. apply nodup_app.
+      * apply nodup_filter_map. exact N.
+      * constructor; [intros []|constructor].
+      * intros x Hx Hin. cbn [map xname In] in Hin. destruct Hin as [<-|[]].
+        apply in_map_iff in Hx as (y & Ey & Hy). destruct (Hk y Hy) as [_ Hne]. apply Hne. exact Ey.
+    + apply Forall_app; split.
+      * rewrite Forall_forall in *. intros x Hx. apply F. apply Hk. exact Hx.
+      * constructor; [|constructor]. cbn [xname]. split; [exact Hcl|]. intros ->. rewrite str_eqb_refl in Ea. discriminate.
+Qed.
+End SinkNames.
+
+Section FinalNames.
+Variable sh : shape.
+Hypothesis Hsh : shape_eqb sh std_shape = true.
+Variable c : cfg.
+Variable t0 : time.
+Variable ops : list op.
+Hypothesis Hclean : clean c ops.
+Let w := run sh c t0 ops.
+Lemma w_std' : w = run std_shape c t0 ops.
+Proof. unfold w. rewrite (shape_eqb_eq sh Hsh). reflexivity. Qed.
+
+Theorem T_names_roundtrip : Forall (fun f => parse_name c (render c f) = Some (fymd f, fdig f, fgz f) /\
+                                             fdig f = dec (fidx f) /\ 1 <= fidx f /\ hd 48%N (fdig f) <> 48%N) (gone w ++ rot w).
+Proof.
+  rewrite w_std'. pose proof (run_inv2 c t0 ops Hclean) as I.
+  pose proof (inv2_names_ok c _ I) as Hok. pose proof (c_wf c _ I) as Hw. unfold all_rot in *.
+  rewrite Forall_forall in *. intros f Hf. destruct (Hw f Hf) as (_ & _ & _ & Ed & Hi).
+  split; [apply parse_render; apply Hok; exact Hf|split; [exact Ed|split; [exact Hi|]]].
+  rewrite Ed. apply dec_no_leading_zero. exact Hi.
+Qed.
+Theorem T_never_overwritten_names : NoDup (map (render c) (gone w ++ rot w)).
+Proof. rewrite w_std'. apply (inv2_names_nodup c). exact (run_inv2 c t0 ops Hclean). Qed.
+Theorem T_foreign_ok : ForeignOk c w.
+Proof.
+  rewrite w_std'. refine (proj2 (run_ind c (ForeignOk c) t0 _ (fun w o Ho _ H => step_foreign_ok c w o Ho H) ops Hclean)).
+  split; [constructor|constructor].
+Qed.
+(* every name in the directory is distinct: rotated files, the active file, foreign files *)
+Theorem T_directory_names_distinct : NoDup (map (fun e => fst (fst e)) (listing c w)).
+Proof.
+  destruct T_foreign_ok as [FN FF]. pose proof T_never_overwritten_names as RN. pose proof T_names_roundtrip as RT.
+  assert (E : map (fun e => fst (fst e)) (listing c w) = map (render c) (rot w) ++ (active_name c :: map xname (foreign w))).
+  { unfold listing. repeat rewrite map_app. repeat rewrite map_map. reflexivity. }
+  rewrite E. rewrite map_app in RN. apply nodup_app_r in RN.
+  rewrite Forall_forall in RT, FF. apply nodup_app; [exact RN| |].
+  - constructor; [|exact FN]. intro Hin. apply in_map_iff in Hin as (x & Ex & Hx). exact (proj2 (FF x Hx) Ex).
+  - intros n Hn Hin. apply in_map_iff in Hn as (f & <- & Hf). destruct Hin as [Ea|Hin].
+    + exact (render_not_active c f (eq_sym Ea)).
+    + apply in_map_iff in Hin as (x & Ex & Hx). destruct (RT f ltac:(apply in_or_app; right; exact Hf)) as (P & _).
+      rewrite <- Ex, (proj1 (FF x Hx)) in P. discriminate.
+Qed.
+(* in particular a rename target (the newest rotated name) is not the name of any other file, present or removed *)
+End FinalNames.
